@@ -290,7 +290,7 @@ def reply_for(r: random.Random, doc: dict, code: str, resp: dict) -> dict:
     status = int(code)
     if not content:
         return {"reply": {"status": status}, "expect": {"kind": "none"}}
-    mt = next(iter(content))
+    mt = next(iter(content)) if len(content) == 1 else r.choice(list(content))
     sch = (content[mt] or {}).get("schema") or {}
     if "json" in mt and "ndjson" not in mt:
         inst = gs.gen_instance(r, doc, sch)
